@@ -264,6 +264,26 @@ class LibCanon(ast.NodeTransformer):
             return loc(ast.Lambda(args=ast.arguments(posonlyargs=[], args=[ast.arg(arg=o)], kwonlyargs=[], kw_defaults=[], defaults=[]), body=call))
         return node
 
+    def visit_Delete(self, node: ast.Delete) -> ast.AST:
+        # `del X[:k]` drops the first k elements in place; as a value X is X[k:] afterwards (bytearray / list buffers)
+        self.generic_visit(node)
+        if len(node.targets) == 1 and isinstance(node.targets[0], ast.Subscript) and isinstance(node.targets[0].slice, ast.Slice):
+            sl = node.targets[0].slice
+            base = node.targets[0].value
+            if sl.lower is None and sl.step is None and sl.upper is not None and isinstance(base, (ast.Name, ast.Attribute)):
+                tgt = copy.deepcopy(base)
+                for n_ in ast.walk(tgt):
+                    if isinstance(n_, (ast.Name, ast.Attribute)) and hasattr(n_, "ctx"):
+                        n_.ctx = ast.Load()
+                tgt.ctx = ast.Store()      # type: ignore[attr-defined]
+                val = ast.Subscript(value=copy.deepcopy(base), slice=ast.Slice(lower=sl.upper, upper=None, step=None), ctx=ast.Load())
+                for n_ in ast.walk(val.value):
+                    if hasattr(n_, "ctx"):
+                        n_.ctx = ast.Load()       # type: ignore[attr-defined]
+                new = ast.Assign(targets=[tgt], value=val, lineno=node.lineno)
+                return ast.fix_missing_locations(ast.copy_location(new, node))
+        return node
+
     def visit_Subscript(self, node: ast.Subscript) -> ast.AST:
         self.generic_visit(node)
         s = node.slice
